@@ -17,14 +17,14 @@ ASSUMPTIONS = ["queue.Queue is a bounded FIFO whose put blocks when full and get
                "thread switches happen only at queue operations, start/join and generator yields (the only points where the two bodies interact)",
                "video decoding is a stub returning a 4x4 frame whose pixels encode the index, or raising at the failing index"]
 STUBS = ["reader.video / reader.labels -> fake sources (index-coded 4x4 frames, failure injected at a symbolic index)", "frame_buffer -> bounded FIFO model", "inference_model -> identity on (frame_idx, first pixel, orig_size)", "loguru -> no-op", "threading.Thread.__init__ -> no-op while the real VideoReader.__init__ runs (the thread object is never started)"]
-OUTSIDE = ["ranges longer than 3 (quick) / 4 (thorough) frames, queues > 2 (3), batches > 2 (3), more than 6 (10) contested scheduling points", "real video backends", "instances_key=True"]
+OUTSIDE = ["ranges longer than 3 (quick) / 4 (thorough) frames, queues > 2 (3), batches > 2 (3), more than 6 (10; 8 for the labels reader) contested scheduling points", "real video backends", "instances_key=True"]
 REQUIRED_WITNESSES = ["reachability-twin-refuted"]
 BUDGET_S = {"quick": 900, "thorough": 7200}
 
 
 def bounds(tier):
     return {"start,end": "0..3" if tier == "quick" else "0..4", "queue capacity": [1, 2] if tier == "quick" else [1, 2, 3], "batch size": [1, 2] if tier == "quick" else [1, 2, 3],
-            "failing read index": "-1 (none) .. end", "schedule points": 6 if tier == "quick" else 10, "readers": ["VideoReader", "LabelsReader"]}
+            "failing read index": "-1 (none) .. end", "schedule points": 6 if tier == "quick" else "10 (video reader) / 8 (labels reader)", "readers": ["VideoReader", "LabelsReader"]}
 
 
 def configs(tier, seed):
